@@ -8,6 +8,8 @@ import (
 	"go/parser"
 	"go/token"
 	"go/types"
+	"io"
+	"log"
 	"os"
 	"path/filepath"
 	"regexp"
@@ -28,6 +30,8 @@ type anCfg struct {
 	GoOK   bool // newGocritic succeeds: -go parses and the selection is non-empty
 	CtorOK bool
 	Empty  bool // make newGocritic fail through an empty selection instead of a bad -go
+	Debug  bool // -debug-init set (must not change any outcome)
+	BadGo  string
 }
 
 func setFlags(c anCfg) {
@@ -40,8 +44,12 @@ func setFlags(c anCfg) {
 			enable = "nosuchchecker"
 		} else {
 			goV = "1.x"
+			if c.BadGo != "" {
+				goV = c.BadGo
+			}
 		}
 	}
+	common.Must(fl.Set("debug-init", fmt.Sprint(c.Debug)))
 	if !c.CtorOK {
 		enable += ",ruleguard"
 		rules = "/nonexistent-verif/rules-*.go"
@@ -101,6 +109,9 @@ func (e *passEnv) run() (class string) {
 	}
 }
 
+// strings that are not '<int>.<int>' with an optional go prefix (the documented format)
+var malformedVersions = []string{"1.x", "abc", "1.21.x", "1.2.3", "1.", ".5", "1..2", "v1.2", "1.21.0", "go1.18.rc1", "1,5", "1.5 ", "0x1.2"}
+
 var classCoq = map[string]string{"diags": "PassDiags", "initerror": "PassInitError", "ctorerror": "PassCtorError", "skipped": "PassSkipped", "panic": "PassPanic"}
 
 func Run(tier string, seed int64, outDir string) *common.Meta {
@@ -117,7 +128,7 @@ func Run(tier string, seed int64, outDir string) *common.Meta {
 	classCount := map[string]int{}
 	distinct := map[string]bool{}
 	// exhaustive for length <= 3 over the 5 configurations, then random longer ones
-	cfgs := []anCfg{{true, true, false}, {false, true, false}, {true, false, false}, {false, false, false}, {false, true, true}}
+	cfgs := []anCfg{{GoOK: true, CtorOK: true}, {CtorOK: true}, {GoOK: true}, {}, {CtorOK: true, Empty: true}}
 	var hists [][]anCfg
 	var rec func(pref []anCfg)
 	rec = func(pref []anCfg) {
@@ -140,6 +151,18 @@ func Run(tier string, seed int64, outDir string) *common.Meta {
 		}
 		hists = append(hists, h)
 	}
+	// benign variations that must not change any outcome: -debug-init, other malformed -go spellings
+	log.SetOutput(io.Discard)
+	defer log.SetOutput(os.Stderr)
+	for hi := range hists {
+		dbg := hi%3 == 1
+		for j := range hists[hi] {
+			hists[hi][j].Debug = dbg
+			if !hists[hi][j].GoOK && !hists[hi][j].Empty {
+				hists[hi][j].BadGo = malformedVersions[(hi+j)%len(malformedVersions)]
+			}
+		}
+	}
 	evals := 0
 	for _, h := range hists {
 		analyzer.VerifResetGlobal()
@@ -153,7 +176,7 @@ func Run(tier string, seed int64, outDir string) *common.Meta {
 			classCount[cl]++
 			obs = append(obs, classCoq[cl])
 			hc = append(hc, fmt.Sprintf("{| an_go_ok := %s; an_ctor_ok := %s |}", coqfmt.Bool(c.GoOK), coqfmt.Bool(c.CtorOK)))
-			desc += fmt.Sprintf("[init_ok=%v ctor_ok=%v empty=%v -> %s] ", c.GoOK, c.CtorOK, c.Empty, cl)
+			desc += fmt.Sprintf("[init_ok=%v ctor_ok=%v empty=%v debug-init=%v go=%q -> %s] ", c.GoOK, c.CtorOK, c.Empty, c.Debug, c.BadGo, cl)
 			// oracle: never panic; never diagnostics after an init error was reported
 			if cl == "panic" {
 				key := "C19/analyzer/panic"
@@ -182,7 +205,7 @@ func Run(tier string, seed int64, outDir string) *common.Meta {
 		idx = append(idx, desc)
 	}
 	analyzer.VerifResetGlobal()
-	setFlags(anCfg{true, true, false})
+	setFlags(anCfg{GoOK: true, CtorOK: true})
 	meta.Distribution["analyzer_pass_classes"] = classCount
 	meta.Distribution["analyzer_histories"] = len(hists)
 	hdr := "From GC Require Import Base Model_Init.\n"
@@ -222,6 +245,7 @@ type fault struct {
 	loadOK                           bool
 }
 
+var diagLineRE = regexp.MustCompile(`(?m)\.go:\d+:\d+: captLocal: `)
 var panicRE = regexp.MustCompile(`(?m)^panic: |^goroutine \d+ \[`)
 
 func faultMatrix(meta *common.Meta, tier string, outDir string) int {
@@ -243,6 +267,10 @@ func faultMatrix(meta *common.Meta, tier string, outDir string) int {
 		{name: "unparsable-param+bad-go-version", cliArgs: []string{"-@hugeParam.sizeThreshold=x", "-go=abc"}, anArgs: nil, keywords: []string{"invalid value", "sizeThreshold"}, parseOK: false, goOK: false, nonEmpty: true, loadOK: true},
 		{name: "rules-no-match+empty-after-disable", cliArgs: []string{"-enable=ruleguard", "-disable=ruleguard", "-@ruleguard.rules=/nonexistent-verif/r-*.go"}, anArgs: nil, keywords: []string{"empty"}, parseOK: true, goOK: true, nonEmpty: false, loadOK: true},
 		{name: "loader-failure+bad-go-version", cliArgs: []string{"-go=abc"}, anArgs: nil, keywords: []string{"load packages", "flag"}, parseOK: true, goOK: false, nonEmpty: true, loadOK: false, envExtra: []string{"GOFLAGS=-mod=mod -nosuchflagverif"}},
+		{name: "bad-go-version-3-components", cliArgs: []string{"-go=1.21.x"}, anArgs: []string{"-go=1.21.x"}, keywords: []string{"1.21.x", "version"}, parseOK: true, goOK: false, nonEmpty: true, loadOK: true},
+		{name: "bad-go-version-go-prefix-only", cliArgs: []string{"-go=go1.18.rc1", "-v"}, anArgs: []string{"-go=go1.18.rc1", "-debug-init"}, keywords: []string{"rc1", "version"}, parseOK: true, goOK: false, nonEmpty: true, loadOK: true},
+		{name: "bad-go-version-verbose", cliArgs: []string{"-go=1.x", "-v"}, anArgs: []string{"-go=1.x", "-debug-init"}, keywords: []string{"1.x", "version"}, parseOK: true, goOK: false, nonEmpty: true, loadOK: true},
+		{name: "empty-selection-verbose", cliArgs: []string{"-enable=nosuchchecker", "-v"}, anArgs: []string{"-enable=nosuchchecker", "-debug-init"}, keywords: []string{"empty"}, parseOK: true, goOK: true, nonEmpty: false, loadOK: true},
 		{name: "valid", cliArgs: []string{"-enable=captLocal"}, anArgs: []string{"-enable=captLocal"}, parseOK: true, goOK: true, nonEmpty: true, loadOK: true},
 	}
 	bin := common.BinDir()
@@ -274,7 +302,7 @@ func faultMatrix(meta *common.Meta, tier string, outDir string) int {
 					continue
 				}
 				panicked := panicRE.MatchString(out)
-				diagLines := strings.Count(out, "captLocal:")
+				diagLines := len(diagLineRE.FindAllString(out, -1))
 				front := "cli"
 				if isAn {
 					front = "analyzer"
